@@ -23,7 +23,8 @@ CLEAN = {"JSIMD_FORCENONE": "", "JSIMD_FORCESSE2": "", "JSIMD_FORCEAVX2": "", "J
 # J_COLOR_SPACE values of the extended RGB layouts + JCS_RGB (= 2)
 ALL_CS = [6, 7, 8, 9, 10, 11, 12, 13, 14, 15, 2]
 SUBSAMP = ["444", "422", "420", "gray", "440", "411", "441"]
-LOW_KINDS = (3, 4, 7, 8)           # uniform / low-contrast images: no 16-bit lane of the fast DCT can wrap
+LOW_KINDS = (3, 4, 7, 8)
+ROWCONST_KINDS = (9, 10)      # horizontal stripes, contrast >= 128, all channels equal: every block has constant rows           # uniform / low-contrast images: no 16-bit lane of the fast DCT can wrap
 
 
 def runp(exe, mode, inp, envname, timeout=1700):
@@ -65,7 +66,7 @@ def kernel_cases(ctx):
             cases.append(("yccrgb %d %d %d %s" % (cs, off, n, " ".join(map(str, px))), "k-yccrgb"))
             w = rng.range(1, 70)
             nc = (w + 1) // 2
-            v2 = rng.below(2)
+            v2 = rng.below(3)           # 2 = both output rows alias (jpeg_skip_scanlines passes spare_row twice)
             cases.append(("merged %d %d %d %d | %s | %s | %s | %s" % (
                 v2, cs, off, w, " ".join(map(str, rb(rng, w + 1))), " ".join(map(str, rb(rng, w + 1))),
                 " ".join(map(str, rb(rng, nc, rng.choice([0, 1])))), " ".join(map(str, rb(rng, nc, rng.choice([0, 1]))))), "k-merged"))
@@ -115,8 +116,17 @@ def kernel_cases(ctx):
     # fast forward DCT: the refutation witness of props/C05.v (black/white stripes), high- and low-amplitude blocks
     stripes = [127 if ((x // 3 + y // 2) & 1) else -128 for y in range(8) for x in range(8)]
     cases.append(("fdctfst " + " ".join(map(str, stripes)), "k-fdctfst-high"))
-    for r in range(ctx.n(40, 400)):
-        amp = rng.choice([4, 16, 60, 128, 128])
+    # blocks with constant rows (horizontal stripes of any contrast): proved never to need more than 14 bits
+    for r in range(ctx.n(30, 300)):
+        lv = [rng.choice([-128, 127]) if rng.chance(1, 2) else rng.range(-128, 127) for _ in range(8)]
+        if r % 3 == 0:
+            lv = [(127 if ((y // 2 + r) & 1) else -128) for y in range(8)]
+        if r % 3 == 1:
+            hi, lo = rng.range(64, 127), rng.range(-128, -64)
+            lv = [hi if y in (0, 1, 6, 7) else lo for y in range(8)]
+        cases.append(("fdctfst " + " ".join(str(lv[y]) for y in range(8) for x in range(8)), "k-fdctfst-rowconst"))
+    for r in range(ctx.n(150, 1500)):
+        amp = rng.choice([4, 16, 60, 128, 128, 128])
         kind = rng.below(3)
         if kind == 0:
             blk = [rng.range(-amp, amp - 1) for _ in range(64)]
@@ -137,6 +147,7 @@ def kernel_cases(ctx):
         cases.append(("bulk colourw %d 0 %d" % (cs, seed), "k-bulk-colourw"))
         cases.append(("bulk merged %d 0 %d" % (cs, seed), "k-bulk-merged"))
         cases.append(("bulk merged %d 1 %d" % (cs, seed), "k-bulk-merged"))
+        cases.append(("bulk merged %d 2 %d" % (cs, seed), "k-bulk-merged-aliased"))
     for v2 in (0, 1):
         for r in range(ctx.n(1, 8)):
             cases.append(("bulk down %d 0 %d" % (v2, seed + r), "k-bulk-down"))
@@ -161,7 +172,8 @@ def kernel_cases(ctx):
     for r in range(ctx.n(1, 10)):
         cases.append(("bulk fdct 0 0 %d" % (seed + r), "k-bulk-fdct-islow"))
         cases.append(("bulk fdct 1 1 %d" % (seed + r), "k-bulk-fdct-ifast-low"))
-        cases.append(("bulk fdct 1 0 %d" % (seed + r), "k-bulk-fdct-ifast-full"))
+        cases.append(("bulk fdct 1 2 %d" % (seed + r), "k-bulk-fdct-ifast-constrows"))
+        cases.append(("bulk idct 1 3 %d" % (seed + r), "k-bulk-idct-ifast-constrows"))
         for a in (0, 2, 3):
             cases.append(("bulk idct %d 0 %d" % (a, seed + r), "k-bulk-idct"))
         cases.append(("bulk idct 1 2 %d" % (seed + r), "k-bulk-idct-ifast-low"))
@@ -184,8 +196,8 @@ def quant_mask(line, part):
 def kernel_sig(line, stream):
     t = line.split()
     if t[0] == "bulk":
-        if t[1] in ("fdct", "idct") and t[2] == "1" and t[3] == "0":
-            return "ifast-16bit-overflow:kernel-" + t[1]
+        if t[1] == "idct" and t[2] == "1" and t[3] == "0":
+            return "ifast-operand-ge-8192:kernel-idct-noise-and-edge-blocks"
         if t[1] == "rowsup":
             return "kernel:rows-%s-h2v%s" % ("fancy" if t[2] == "1" else "plain", "2" if t[3] == "1" else "1")
         if t[1] == "rowsdown":
@@ -193,8 +205,10 @@ def kernel_sig(line, stream):
         return "kernel:" + "-".join(t[1:3] if t[1] in ("fdct", "idct", "down", "fancy", "plain") else t[1:2])
     if t[0] in ("plaing", "fancyg", "downg"):
         return "kernel:rows-%s-h2v%s" % (t[0][:-1], "2" if t[1] == "1" else "1")
-    if t[0] == "fdctfst" and stream.endswith("high"):
-        return "ifast-16bit-overflow:kernel-fdct"
+    if t[0] == "fdctfst":
+        # stream carries the prediction of the faithful C model (c_wraps14, 2-bit pre-shift): W1 = some multiply
+        # operand leaves [-8192, 8191]
+        return "ifast-operand-ge-8192:kernel-fdct" if stream.endswith(":W1") else "kernel:fdctfst:no-operand-ge-8192"
     return "kernel:" + t[0]
 
 
@@ -222,6 +236,11 @@ def do_kernel(ctx, exe, drv, cases, isas):
         ndis = {}
         for i, (line, stream) in enumerate(cases):
             res = lines[i]
+            wflag = ""
+            if ml is not None and line.startswith("fdctfst") and " ; W" in ml[i]:
+                ml[i], wflag = ml[i].rsplit(" ; ", 1)
+            elif line.startswith("fdctfst"):
+                wflag = "W1"            # no model available: do not claim more than the known finding
             parts = res.split(" ; ")[0].split(" | ")
             if len(parts) != 2 or not parts[0].startswith("S") or not parts[1].startswith("C"):
                 ctx.broken_tie("harness-protocol", "unexpected result line for %s: %s" % (line[:80], res[:120]))
@@ -236,7 +255,7 @@ def do_kernel(ctx, exe, drv, cases, isas):
                 detail = res.split(" ; first_diff ")[1] if " ; first_diff " in res else "simd=%s c=%s" % (s[:120], c[:120])
                 ctx.violation("kernel level: %s differs from the C function under %s: %s" % (cmd if cmd != "bulk" else line, isa, detail[:300]),
                               {"mode": "kernel", "isa": isa, "case": line[:6000], "result": res[:2000]},
-                              signature=kernel_sig(line, stream))
+                              signature=kernel_sig(line, stream + ":" + wflag))
             if ml is not None and cmd != "bulk":
                 nmodel += 1
                 if ml[i].strip() != res.strip():
@@ -254,7 +273,9 @@ def do_kernel(ctx, exe, drv, cases, isas):
                             side.append("C-model != C function")
                     ctx.broken_tie("correspondence:%s:%s" % (cmd, isa), "%s on: %s || model=%s || impl=%s" % (
                         ", ".join(side) or "format", line[:300], ml[i][:200], res[:200]))
-            ctx.count(stream + ":" + isa, 1, (stream, res[:80]))
+            if wflag == "W0" and not ok:
+                pass    # already reported above with the no-operand-ge-8192 signature (a NEW violation)
+            ctx.count(stream + ":" + isa + (":" + wflag if wflag else ""), 1, (stream, res[:80]))
             if i % 499 == 0:
                 ctx.sample({"isa": isa, "case": line[:200], "result": res[:200]})
         ctx.cov["traces_validated_against_impl"] += nmodel
@@ -276,7 +297,7 @@ def codec_cases(ctx):
         flags = rng.below(32)
         if rng.chance(1, 2):
             flags &= ~8                 # arithmetic coding has no SIMD at all: keep it the minority
-        kind = rng.choice([0, 1, 2, 3, 4, 5, 6, 7, 8, 7, 8, 0, 1])
+        kind = rng.choice([0, 1, 2, 3, 4, 5, 6, 7, 8, 7, 8, 0, 1, 9, 10, 9])
         return "e %d %d %d %d %d %d %d %d %d" % (w, h, ss, pf, q, flags, kind, rng.below(1 << 40), rng.below(32))
     for w in range(1, 131):
         for ss in range(7):
@@ -298,8 +319,31 @@ def codec_cases(ctx):
             w = rng.choice([rng.range(1, 130), rng.range(30, 80), 70])
             h = rng.choice([1, 2, 3, 8, 15, 16, 17, 33, 37, 37])
             fast = 1 if rng.chance(1, 5) else 0
-            kind = rng.choice([0, 1, 5, 6, 7, 8]) if not fast else rng.choice([7, 8])
+            kind = rng.choice([0, 1, 5, 6, 7, 8, 9]) if not fast else rng.choice([7, 8, 9, 10])
             cases.append("j %d %d %d %d %d %d %d %s" % (w, h, rng.choice([50, 75, 90, 100]), fast, kind, rng.below(1 << 40), nc, " ".join(map(str, hv))))
+    # decompression histories with jpeg_skip_scanlines / jpeg_crop_scanline: skip counts 1..5 from even and odd lines,
+    # merged (fancy=0, 2x1 / 2x2) and separate upsampling, all subsamplings; the rows delivered must not depend on the level
+    HSETS = [(1, 1, 1, 1, 1, 1), (2, 1, 1, 1, 1, 1), (2, 2, 1, 1, 1, 1), (1, 2, 1, 1, 1, 1), (4, 1, 1, 1, 1, 1), (2, 2, 1, 2, 1, 2), (2, 2, 2, 1, 2, 1), (4, 2, 1, 1, 1, 1)]
+    for rep in range(ctx.n(3, 40)):
+        for hv in HSETS:
+            for fancy in (0, 1):
+                w, h = rng.range(17, 90), rng.range(20, 60)
+                ops = []
+                first = rng.below(4)
+                if first:
+                    ops.append("r%d" % first)
+                for _ in range(rng.range(1, 4)):
+                    ops.append("s%d" % rng.range(1, 5))
+                    ops.append("r%d" % rng.range(1, 3))
+                crop = rng.chance(1, 3)
+                cx, cw = (rng.below(w), rng.range(1, w)) if crop else (0, 0)
+                if crop and cx + cw > w:
+                    cw = w - cx
+                cases.append("s %d %d %d %d %d %d %d %d %d %s | %s" % (w, h, rng.choice([50, 90]), fancy, rng.choice([0, 1, 6]), rng.below(1 << 40),
+                                                                   rng.choice([2, 9, 12, 6]), cx, cw, " ".join(map(str, hv)), " ".join(ops)))
+    # the histories of seeded/C05-5: 4:2:0 merged, discard phase ending on the first line of a pair
+    for ops in ("s3", "r2 s5", "r1 s4", "s1", "r3 s2 r1 s3"):
+        cases.append("s 48 40 90 0 1 %d 2 0 0 2 2 1 1 1 1 | %s" % (rng.below(1 << 30), ops))
     # legal JPEGs with dequantised coefficients outside the range of a real encoder
     for qp in ([8, 255] if not ctx.thorough() else [2, 8, 32, 255]):
         cases.append("p %d %d %d %d %d %d" % (rng.range(24, 80), rng.range(16, 40), rng.below(3), rng.choice([0, 2, 5]), rng.below(1 << 30), qp))
@@ -311,26 +355,30 @@ def codec_class(line, tok):
     t = line.split()
     if t[0] == "p":
         return "idct-out-of-range-coefficients:" + ("ifast" if tok.startswith("x1") else "islow"), "patched-DQT"
+    if t[0] == "s":
+        if tok.startswith("enc"):
+            return "codec:history:enc", ""
+        return "codec:history:%s:%s" % ("fancy" if t[4] == "1" else "merged-or-plain", "crop" if t[9] != "0" else "skip"), ""
     if t[0] == "j":
         fast, kind = int(t[4]), int(t[5])
-        if fast and kind not in LOW_KINDS:
-            return "ifast-16bit-overflow:codec-libjpeg", "fast DCT, high-contrast image"
+        if fast and kind not in LOW_KINDS + ROWCONST_KINDS:
+            return "ifast-operand-ge-8192:codec-libjpeg-noise-and-edge-images", "fast DCT, image with vertical/2-D high-contrast structure"
         if tok.startswith("enc"):
             return "codec:libjpeg:enc", ""
         return "codec:libjpeg:dec:" + ("fancy" if tok.startswith("f1") else "plain"), ""
     w, h, ss, pf, q, flags, kind = (int(x) for x in t[1:8])
-    low = kind in LOW_KINDS and q >= 50
+    low = (kind in LOW_KINDS and q >= 50) or kind in ROWCONST_KINDS
     fast_enc = flags & 1
     if tok.startswith("enc"):
         if fast_enc and not low:
-            return "ifast-16bit-overflow:codec-enc", "fast DCT, high-contrast image"
-        return "codec:enc:" + ("ifast-lowcontrast" if fast_enc else "islow"), ""
+            return "ifast-operand-ge-8192:codec-enc-noise-and-edge-images", "fast DCT, image with vertical/2-D high-contrast structure"
+        return "codec:enc:" + ("ifast-%s" % ("constant-rows" if kind in ROWCONST_KINDS else "lowcontrast") if fast_enc else "islow"), ""
     if tok.startswith("yuv"):
         return "codec:dec:yuv", ""
     f = tok.split(":")
     fastup, fastdct = f[2][0], f[2][1]
     if fastdct == "1" and not low:
-        return "ifast-16bit-overflow:codec-dec", "fast IDCT, high-contrast image"
+        return "ifast-operand-ge-8192:codec-dec-noise-and-edge-images", "fast IDCT, image with vertical/2-D high-contrast structure"
     up = "fancy" if fastup == "0" else "merged-or-plain"
     return "codec:dec:%s:%s:scale%s" % ("ifast-lowcontrast" if fastdct == "1" else "islow", up, "1" if f[3] == "1/1" else "N"), ""
 
@@ -339,6 +387,11 @@ def describe(line):
     t = line.split()
     if t[0] == "p":
         return "legal JPEG with all quantisation values patched to %s (image %sx%s, %s)" % (t[6], t[1], t[2], SUBSAMP[int(t[3])])
+    if t[0] == "s":
+        hv = t[10:16]
+        return "libjpeg API history: width=%s height=%s quality=%s %s upsampling out_color_space=%s crop=%s sampling factors=%s ops=[%s] (rN read N lines, sN jpeg_skip_scanlines(N))" % (
+            t[1], t[2], t[3], "fancy" if t[4] == "1" else "merged/plain", t[7], ("x%s+%s" % (t[8], t[9])) if t[9] != "0" else "none",
+            ",".join("%sx%s" % (hv[2 * i], hv[2 * i + 1]) for i in range(3)), line.split("|")[1].strip())
     if t[0] == "j":
         nc = int(t[7])
         hv = t[8:8 + 2 * nc]
@@ -385,7 +438,7 @@ def do_codec(ctx, exe, cases):
                         name, ta.rsplit(":", 1)[0], describe(line), why),
                         {"mode": "codec", "case": line, "token": ta.rsplit(":", 1)[0], "none": ref[i], name: outs[name][i]}, signature=sig)
         t = line.split()
-        ctx.count("codec-" + (SUBSAMP[int(t[3])] if t[0] == "e" else "libjpeg-factors" if t[0] == "j" else "patched"), 1, ref[i][:60])
+        ctx.count("codec-" + (SUBSAMP[int(t[3])] if t[0] == "e" else "libjpeg-factors" if t[0] == "j" else "history-skip-crop" if t[0] == "s" else "patched"), 1, ref[i][:60])
         if i % 977 == 0:
             ctx.sample({"case": line, "none": ref[i][:160]})
 
